@@ -17,7 +17,7 @@ def plan(tier, seed):
                 mutants=[])
     famO = dict(name='decoding_order', module=H, fn='order', jobs=[{}, {'meta_ct': 'text/xml'}], timeout=600, vacuity=1,
                 mutants=[{'name': 'bom_kept', 'cfg': {}}, {'name': 'meta_before_declaration', 'cfg': {}}])
-    famM = dict(name='meta_charset', module=H, fn='meta', jobs=[{}, {'upper': True}], timeout=600 if quick else 1800,
+    famM = dict(name='meta_charset', module=H, fn='meta', jobs=[{}, {'upper': True}, {'pad': 400}], timeout=600 if quick else 1800,
                 vacuity=1, mutants=[])
     famR = dict(name='recook_follows_document_kind', module=H, fn='recook', jobs=[{}], timeout=300, vacuity=1,
                 mutants=[{'name': 'booleans_stick', 'cfg': {}}])
